@@ -124,6 +124,9 @@ func CheckProperty(cfg *Config, id string) int {
 		for k, n := range ss.Aborted {
 			inconclusive = append(inconclusive, fmt.Sprintf("shard %d: %d path(s) aborted: %s", i, n, k))
 		}
+		if ss.Paths-ss.Infeasible-countAborted(ss.Aborted) <= 0 {
+			inconclusive = append(inconclusive, fmt.Sprintf("shard %d (%s) has no feasible completed path: its assumptions are unsatisfiable", i, ss.Shard.Name))
+		}
 		if ss.Truncated {
 			inconclusive = append(inconclusive, fmt.Sprintf("shard %d: path budget %d exhausted before the frontier emptied", i, ss.Shard.MaxPaths))
 		}
@@ -379,4 +382,12 @@ func writeEvidence(cfg *Config, spec *PropSpec, ld *Loaded, res *RunResult, s ev
 	dir := filepath.Join(cfg.VerifDir, "evidence")
 	os.MkdirAll(dir, 0o755)
 	os.WriteFile(filepath.Join(dir, spec.ID+".json"), b, 0o644)
+}
+
+func countAborted(m map[string]int) int {
+	n := 0
+	for _, v := range m {
+		n += v
+	}
+	return n
 }
